@@ -10,6 +10,7 @@ ES = "des/src/runtime/event/event_set.rs"
 PR = "des/src/net/processing.rs"
 CH = "des/src/net/channel.rs"
 BLD = "des/src/runtime/builder.rs"
+MT = "des/src/net/runtime/mod.rs"
 
 # (id, property, file, regex, replacement, expectation)   expectation: "kill" (exit 1 expected) | "keep" (exit 0 expected)
 PACK = [
@@ -21,7 +22,10 @@ PACK = [
     ("cq-len-missing", "C01", CQ, r"\n        self\.len \+= 1;", "", "kill"),
     ("cq-id-reuse", "C03", CQ, r"self\.event_id = id\.wrapping_add\(1\);\n\n            EventHandle", "self.event_id = id;\n\n            EventHandle", "kill"),
     ("cq-cancel-zero-only", "C01", CQ, r"                    return;\n                \}\n            \}", "                }\n                return;\n            }", "kill"),
-    ("cq-peek-head", "C10", CQ, r"if let Some\(\(_, time, _\)\) = self\.zero_event_bucket\.front\(\) \{", "if let Some((_, time, _)) = self.zero_event_bucket.back() {", "kill"),
+    ("eq-peek-back", "C10", CQ, r"if let Some\(\(_, time, _\)\) = self\.zero_event_bucket\.front\(\) \{", "if let Some((_, time, _)) = self.zero_event_bucket.back() {", "keep"),  # all entries of the zero bucket carry the same time
+    ("mt-depth-ge", "C12", MT, r"self\.modules\[pos\]\.path\.len\(\) > parent_depth", "self.modules[pos].path.len() >= parent_depth", "kill"),
+    ("mt-no-skip", "C12", MT, r"                pos \+= 1;\n\n                // \(iter as long", "                pos += 0;\n\n                // (iter as long", "kill"),
+    ("eq-mt-position", "C12", MT, r"\.rposition\(\|m\| m\.path == parent\)", ".position(|m| m.path == parent)", "keep"),  # paths are unique
     ("es-start-ignored", "C02", ES, r"start_time: options\.start_time,", "start_time: SimTime::MIN,", "kill"),
     ("lim-count-ge", "C11", LIM, r"Self::EventCount\(e\) => itr_count > \*e,", "Self::EventCount(e) => itr_count >= *e,", "kill"),
     ("lim-and-or", "C11", LIM, r"lhs\.applies\(itr_count, time\) && rhs\.applies\(itr_count, time\)", "lhs.applies(itr_count, time) || rhs.applies(itr_count, time)", "kill"),
@@ -45,7 +49,7 @@ PACK = [
     ("eq-take-msg", "C14", PR, r"if let Some\(existing_msg\) = msg \{", "if let Some(existing_msg) = msg.take() {", "keep"),
 ]
 
-FILES = [CQ, RT, LIM, ES, PR, CH, BLD, "des/src/net/message/mod.rs", "des/src/net/message/header.rs", "des/src/net/message/body.rs", "des/src/time/mod.rs",
+FILES = [CQ, RT, LIM, ES, PR, CH, BLD, MT, "des/src/net/path.rs", "des/src/net/message/mod.rs", "des/src/net/message/header.rs", "des/src/net/message/body.rs", "des/src/time/mod.rs",
          "des/src/time/duration.rs", "des/src/macros/cfg.rs", "des/src/runtime/bench.rs", "des/src/runtime/event/types.rs", "des-cqueue/src/stable/linked_list.rs",
          "des-cqueue/src/stable/alloc.rs", "des-cqueue/src/stable/boxed.rs", "des-cqueue/Cargo.toml", "des-cqueue/src/lib.rs"]
 
